@@ -602,7 +602,7 @@ package graph
 // cord): this is what makes the walk terminate and is an OBLIGATION at the
 // call sites (a cyclic edgeTo would loop forever).
 //@ uf cord(k any) int
-//@ ghost chainOK(edgeTo HashM) bool = forall(k, any, imp(edgeTo[k] != nil, 0 <= cord(hc(edgeTo[k])) && cord(hc(edgeTo[k])) < cord(k)))
+//@ ghost chainOK(edgeTo HashM) bool = forall(k, any, 0 <= cord(k) && imp(edgeTo[k] != nil, cord(hc(edgeTo[k])) < cord(k)))
 
 //@ func (*Graph).EdgeToPath
 //@   requires chainOK(edgeTo)
